@@ -134,6 +134,20 @@ fn judge(payload: &[u8], reply: Option<&[u8]>, carrier: &str, later: bool, idx: 
                 let di = u16::from_le_bytes([words[0], words[1]]) as usize;
                 if di >= dialects.len() {
                     bad("dialect", "smb1-dialect-index".into(), format!("DialectIndex {} but {} dialects were offered", di, dialects.len()));
+                } else if dialects.iter().any(|d| &d[..] == b"NT LM 0.12") && !crate::apps::smb::SMB1_REAL_DIALECTS.iter().any(|d| d.as_bytes() == &dialects[di][..]) {
+                    // When nothing it knows is offered the responder falls back to the first
+                    // offered dialect, whatever it is (the statement only asks for an offered one).
+                    // But when the client offers "NT LM 0.12" - the one dialect every SMB1 server
+                    // speaks - next to made-up names, "selecting" a name that is no SMB dialect at
+                    // all can only be a wrong index
+                    bad(
+                        "dialect",
+                        "smb1-dialect-made-up".into(),
+                        format!("DialectIndex {} designates {:?}, which is no SMB dialect at all ({} offered)", di, String::from_utf8_lossy(&dialects[di]), dialects.len()),
+                    );
+                }
+                if dialects.len() > 256 {
+                    t.probe("more-than-256-dialects-offered");
                 }
             } else {
                 // the extended-security response (4 words) carries a SecurityBlobLength
